@@ -13,9 +13,11 @@ import (
 	"net/http"
 	"net/http/httptest"
 	"net/url"
+	"runtime"
 	"sort"
 	"sync"
 	"sync/atomic"
+	"time"
 
 	"github.com/labstack/echo/v4"
 	"github.com/labstack/echo/v4/middleware"
@@ -112,6 +114,9 @@ func c19GenConc(r *rand.Rand, tier string) *c19Case {
 func c19RunConc(c *c19Case) Result {
 	if c.Conc == nil {
 		return Result{Oracle: "no scripts"}
+	}
+	if len(c.Conc.Rounds) > 0 {
+		return c19RunRounds(c)
 	}
 	var init []*middleware.ProxyTarget
 	isInit := map[string]bool{}
@@ -314,4 +319,410 @@ func c19RunConc(c *c19Case) Result {
 		tags = append(tags, "conc-random")
 	}
 	return Result{Oracle: oracle, Tags: tags, Nontrivial: len(rmEv) > 0 && len(addEv) > 0 && nOps > 50}
+}
+
+// ---------------- kind 4, simultaneous rounds ----------------
+//
+// Calls on the SAME name at the same moment (two discovery watchers report one instance; two
+// health checkers take one instance out) and bursts of calls on different names.  The random
+// scripts above add every name once, so two AddTarget calls never compete for a name there.
+//
+// One round = one call per goroutine, all released together by a spin barrier (the goroutines
+// leave it within nanoseconds of one another: a window of a few instructions between two lock
+// acquisitions is hit within a few rounds), joined before the next round starts.  Between two
+// rounds the harness therefore knows the exact membership, and the calls of one round overlap
+// pairwise, so ANY order of them is a candidate linearization.
+//
+// Oracle (no model): per name the balancer is a present/absent bit — AddTarget answers true iff the
+// name is absent and makes it present, RemoveTarget answers true iff it is present and makes it
+// absent (C19_add, C19_remove; names stay unique: C19_names_unique).  Whatever the order,
+//     present before + successful adds = successful removes + present after      (C19_name_balance)
+// so the successes of one round differ by at most one in the direction the state before allows,
+// a false from AddTarget needs a moment at which the name was present, a false from RemoveTarget
+// a moment at which it was absent.  After the round the membership that follows is probed
+// sequentially (AddTarget of a member / RemoveTarget of a non-member must answer false, a
+// round-robin cycle visits every member once), and at the end the list is drained: every member
+// can be removed exactly once and then Next answers nil.
+
+const c19BarrierWait = 50 * time.Millisecond
+
+func c19GenRounds(r *rand.Rand, tier string) *c19Case {
+	c := &c19Case{Kind: 4, RR: r.Intn(3) != 0, Conc: &c19Conc{}}
+	L := []int{0, 0, 1, 2, 3, 8, 30, 200, 1500}[r.Intn(9)]
+	if tier == "thorough" && r.Intn(10) == 0 {
+		L = 4000
+	}
+	c.Conc.Fill = L
+	hot := []string{"x", "y", "z"}[:1+r.Intn(3)]
+	nRounds := 10 + r.Intn(30)
+	if tier == "thorough" {
+		nRounds = 20 + r.Intn(100)
+	}
+	fresh := 0
+	var known []string // names that were the subject of an AddTarget so far (may or may not be present)
+	someName := func() string {
+		switch k := r.Intn(3); {
+		case k == 0 && L > 0:
+			return fmt.Sprintf("i%d", r.Intn(L))
+		case k == 1 && len(known) > 0:
+			return known[r.Intn(len(known))]
+		}
+		return hot[r.Intn(len(hot))]
+	}
+	for len(c.Conc.Rounds) < nRounds {
+		g := 2 + r.Intn(7)
+		var rd []c19Op
+		switch r.Intn(6) {
+		case 0: // everybody adds the same name; often followed by: everybody removes it
+			nm := hot[r.Intn(len(hot))]
+			for k := 0; k < g; k++ {
+				rd = append(rd, c19Op{K: 0, Name: nm, URL: r.Intn(6)})
+			}
+			if r.Intn(3) != 0 {
+				c.Conc.Rounds = append(c.Conc.Rounds, rd)
+				rd = nil
+				for k := 2 + r.Intn(7); k > 0; k-- {
+					rd = append(rd, c19Op{K: 1, Name: nm})
+				}
+			}
+		case 1: // everybody removes the same name
+			nm := someName()
+			for k := 0; k < g; k++ {
+				rd = append(rd, c19Op{K: 1, Name: nm})
+			}
+		case 2: // adds and removes of one name, with picks
+			nm := hot[r.Intn(len(hot))]
+			for k := 0; k < g; k++ {
+				switch r.Intn(5) {
+				case 0, 1:
+					rd = append(rd, c19Op{K: 0, Name: nm, URL: r.Intn(6)})
+				case 2, 3:
+					rd = append(rd, c19Op{K: 1, Name: nm})
+				default:
+					rd = append(rd, c19Op{K: 2})
+				}
+			}
+		case 3: // a burst of registrations: different new names at once
+			for k := 0; k < g; k++ {
+				fresh++
+				nm := fmt.Sprintf("n%d", fresh)
+				known = append(known, nm)
+				rd = append(rd, c19Op{K: 0, Name: nm, URL: r.Intn(6)})
+			}
+		case 4: // a burst of removals of different names, with picks
+			seen := map[string]bool{}
+			for k := 0; k < g; k++ {
+				nm := someName()
+				if seen[nm] || r.Intn(5) == 0 {
+					rd = append(rd, c19Op{K: 2})
+					continue
+				}
+				seen[nm] = true
+				rd = append(rd, c19Op{K: 1, Name: nm})
+			}
+		default: // anything on a small set of names
+			for k := 0; k < g; k++ {
+				switch r.Intn(3) {
+				case 0:
+					rd = append(rd, c19Op{K: 0, Name: someName(), URL: r.Intn(6)})
+				case 1:
+					rd = append(rd, c19Op{K: 1, Name: someName()})
+				default:
+					rd = append(rd, c19Op{K: 2})
+				}
+			}
+		}
+		c.Conc.Rounds = append(c.Conc.Rounds, rd)
+	}
+	return c
+}
+
+func c19RunRounds(c *c19Case) Result {
+	oracle := ""
+	fail := func(round int, msg string) {
+		if oracle == "" {
+			if round >= 0 {
+				msg = fmt.Sprintf("round %d: %s", round, msg)
+			}
+			oracle = msg
+		}
+	}
+	present := map[string]bool{}
+	var init []*middleware.ProxyTarget
+	start := make([]c19Target, 0, c.Conc.Fill+len(c.Init))
+	for i := 0; i < c.Conc.Fill; i++ {
+		start = append(start, c19Target{fmt.Sprintf("i%d", i), i % 6})
+	}
+	for _, t := range append(start, c.Init...) {
+		if present[t.Name] {
+			continue // this kind starts from distinct names (the constructors do not check)
+		}
+		u, _ := url.Parse(fmt.Sprintf("http://h%d.test", t.URL))
+		init = append(init, &middleware.ProxyTarget{Name: t.Name, URL: u})
+		present[t.Name] = true
+	}
+	bal := c19NewBalancer(c.RR, init)
+	e := echo.New()
+	newCtx := func() echo.Context {
+		return e.NewContext(httptest.NewRequest(http.MethodGet, "/", nil), httptest.NewRecorder())
+	}
+	tagset := map[string]bool{"conc": true, "conc-rounds": true}
+	contended := false
+
+	type outT struct {
+		ok       bool
+		got      string
+		nilRet   bool
+		panicked any
+	}
+	type tally struct{ n, addOk, addFail, rmOk, rmFail int }
+	members := func() []string {
+		var ms []string
+		for n, p := range present {
+			if p {
+				ms = append(ms, n)
+			}
+		}
+		sort.Strings(ms)
+		return ms
+	}
+
+	for ri, round := range c.Conc.Rounds {
+		g := len(round)
+		outs := make([]outT, g)
+		ctxs := make([]echo.Context, g)
+		pts := make([]*middleware.ProxyTarget, g)
+		for k, op := range round {
+			switch op.K {
+			case 0:
+				u, _ := url.Parse(fmt.Sprintf("http://h%d.test", op.URL))
+				pts[k] = &middleware.ProxyTarget{Name: op.Name, URL: u}
+			case 2:
+				ctxs[k] = newCtx()
+			}
+		}
+		var ready int32
+		var wg sync.WaitGroup
+		for k, op := range round {
+			wg.Add(1)
+			go func(k int, op c19Op) {
+				defer wg.Done()
+				defer func() {
+					if r := recover(); r != nil {
+						outs[k].panicked = r
+					}
+				}()
+				// spin barrier (never blocks for good: gives up after c19BarrierWait, which only costs simultaneity)
+				deadline := time.Now().Add(c19BarrierWait)
+				atomic.AddInt32(&ready, 1)
+				for spins := 1; atomic.LoadInt32(&ready) < int32(g); spins++ {
+					if spins&(1<<18-1) == 0 { // about once per millisecond: the wait itself stays a pure spin
+						if time.Now().After(deadline) {
+							break
+						}
+						runtime.Gosched()
+					}
+				}
+				switch op.K {
+				case 0:
+					outs[k].ok = bal.AddTarget(pts[k])
+				case 1:
+					outs[k].ok = bal.RemoveTarget(op.Name)
+				case 2:
+					if t := bal.Next(ctxs[k]); t == nil {
+						outs[k].nilRet = true
+					} else {
+						outs[k].got = t.Name
+					}
+				}
+			}(k, op)
+		}
+		wg.Wait()
+
+		// ---- accounting
+		tl := map[string]*tally{}
+		var names []string
+		for k, op := range round {
+			if outs[k].panicked != nil {
+				fail(ri, fmt.Sprintf("call %d of %d simultaneous calls panicked: %v", k, g, outs[k].panicked))
+				continue
+			}
+			if op.K == 2 {
+				continue
+			}
+			t := tl[op.Name]
+			if t == nil {
+				t = &tally{}
+				tl[op.Name] = t
+				names = append(names, op.Name)
+			}
+			t.n++
+			switch {
+			case op.K == 0 && outs[k].ok:
+				t.addOk++
+			case op.K == 0:
+				t.addFail++
+			case outs[k].ok:
+				t.rmOk++
+			default:
+				t.rmFail++
+			}
+		}
+		sort.Strings(names)
+		before := map[string]bool{}
+		for _, nm := range names {
+			before[nm] = present[nm]
+		}
+		if len(names) >= 2 {
+			tagset["conc-rounds-different-names"] = true
+		}
+		for _, nm := range names {
+			t := tl[nm]
+			was := present[nm]
+			if t.n >= 2 {
+				contended = true
+				if t.addOk+t.addFail >= 2 && !was {
+					tagset["conc-same-name-add"] = true
+				}
+				if t.rmOk+t.rmFail >= 2 && was {
+					tagset["conc-same-name-remove"] = true
+				}
+			}
+			w := 0
+			if was {
+				w = 1
+			}
+			// present before + successful adds = successful removes + present after, present ∈ {0, 1}
+			after := w + t.addOk - t.rmOk
+			switch {
+			case after > 1:
+				// show what it means: how often the name can be removed now
+				extra := 0
+				for extra < 16 && bal.RemoveTarget(nm) {
+					extra++
+				}
+				how := fmt.Sprintf("the name is on the list more than once — RemoveTarget(%q) then succeeded %d times in a row, so one RemoveTarget leaves a removed target in use", nm, extra)
+				if extra < 2 {
+					how = fmt.Sprintf("a name can be added once, and RemoveTarget(%q) then succeeded %d time(s): a target whose AddTarget returned true is not on the list (an added target was lost)", nm, extra)
+				}
+				fail(ri, fmt.Sprintf("%d of %d simultaneous AddTarget(%q) calls returned true (name on the list before: %v, successful RemoveTarget calls in the round: %d): %s",
+					t.addOk, t.addOk+t.addFail, nm, was, t.rmOk, how))
+				present[nm] = false
+				continue
+			case after < 0:
+				fail(ri, fmt.Sprintf("%d of %d simultaneous RemoveTarget(%q) calls returned true (name on the list before: %v, successful AddTarget calls in the round: %d): one entry cannot be removed twice — another target was taken off the list",
+					t.rmOk, t.rmOk+t.rmFail, nm, was, t.addOk))
+				after = 0
+			}
+			if t.addFail > 0 && !was && t.addOk == 0 {
+				fail(ri, fmt.Sprintf("AddTarget(%q) returned false although the name was not on the list before the round and nobody added it", nm))
+			}
+			if t.rmFail > 0 && was && t.rmOk == 0 {
+				fail(ri, fmt.Sprintf("RemoveTarget(%q) returned false although the name was on the list before the round and nobody removed it", nm))
+			}
+			present[nm] = after == 1
+		}
+		// picks of the round: a target that was on the list at some moment of the round
+		for k, op := range round {
+			if op.K != 2 || outs[k].panicked != nil {
+				continue
+			}
+			if outs[k].nilRet {
+				// a name that was there before and that nobody removed successfully was there all the time
+				for _, n := range members() {
+					if t := tl[n]; t == nil || (before[n] && t.rmOk == 0) {
+						fail(ri, fmt.Sprintf("Next returned nil although target %q was on the list during the whole round", n))
+						break
+					}
+				}
+				continue
+			}
+			n := outs[k].got
+			t := tl[n]
+			if (t == nil && !present[n]) || (t != nil && !before[n] && t.addOk == 0) {
+				fail(ri, fmt.Sprintf("Next returned %q which was not on the list at any moment of the round (removed earlier or never added)", n))
+			}
+		}
+		// ---- the membership that follows, probed sequentially
+		for _, nm := range names {
+			if present[nm] {
+				u, _ := url.Parse("http://probe.test")
+				if bal.AddTarget(&middleware.ProxyTarget{Name: nm, URL: u}) {
+					fail(ri, fmt.Sprintf("after the round AddTarget(%q) succeeded although the name had been added successfully and not removed: an added target was lost", nm))
+				}
+			} else if bal.RemoveTarget(nm) {
+				fail(ri, fmt.Sprintf("after the round RemoveTarget(%q) succeeded although the name had been removed (or never added): a second entry of the name was on the list, the balancer kept using a removed target", nm))
+			}
+		}
+		if ms := members(); len(ms) <= 48 && oracle == "" {
+			func() {
+				defer func() {
+					if r := recover(); r != nil {
+						fail(ri, fmt.Sprintf("panic in Next after the round: %v", r))
+					}
+				}()
+				seen := map[string]int{}
+				picks := len(ms)
+				if !c.RR {
+					picks = 2 * len(ms)
+				}
+				if picks == 0 {
+					if t := bal.Next(newCtx()); t != nil {
+						fail(ri, fmt.Sprintf("Next returned %q although every target was removed", t.Name))
+					}
+				}
+				for i := 0; i < picks; i++ {
+					t := bal.Next(newCtx())
+					if t == nil {
+						fail(ri, fmt.Sprintf("Next returned nil after the round although %d targets remain", len(ms)))
+						return
+					}
+					if !present[t.Name] {
+						fail(ri, fmt.Sprintf("after the round Next returned %q (removed or never added)", t.Name))
+					}
+					seen[t.Name]++
+				}
+				if c.RR {
+					for _, n := range ms {
+						if seen[n] != 1 {
+							fail(ri, fmt.Sprintf("after the round round robin returned %q %d times in %d consecutive first-time picks over %d targets", n, seen[n], picks, len(ms)))
+						}
+					}
+				}
+			}()
+		}
+		if oracle != "" {
+			break // the membership is no longer known
+		}
+	}
+	// ---- drain: every member can be removed exactly once, then nothing is left
+	if oracle == "" {
+		func() {
+			defer func() {
+				if r := recover(); r != nil {
+					fail(-1, fmt.Sprintf("panic while draining the balancer: %v", r))
+				}
+			}()
+			ms := members()
+			for i := len(ms) - 1; i >= 0; i-- { // from the back: initial names are in list order, so every scan is short
+				if !bal.RemoveTarget(ms[i]) {
+					fail(-1, fmt.Sprintf("at the end RemoveTarget(%q) returned false: an added target was lost", ms[i]))
+				}
+			}
+			if t := bal.Next(newCtx()); t != nil {
+				fail(-1, fmt.Sprintf("after every target had been removed Next still returned %q: the balancer keeps using a removed target", t.Name))
+			}
+		}()
+	}
+	var tags []string
+	for t := range tagset {
+		tags = append(tags, t)
+	}
+	sort.Strings(tags)
+	if c.RR {
+		tags = append(tags, "conc-rr")
+	} else {
+		tags = append(tags, "conc-random")
+	}
+	return Result{Oracle: oracle, Tags: tags, Nontrivial: contended}
 }
